@@ -30,7 +30,8 @@ RULE = ("Hypothesis builds an EAM model (1..4 elements from real and invented la
         "possibly missing for some elements, each unordered pair declared with probability 3/4 in a random "
         "orientation, occasional foreign-species pairs, random [Species] overrides, grids 2..24 rows) and a route. "
         "The written file is read by an independent token reader and every number compared with the reference "
-        "(all rows up to 40 per function, else 40 spread rows). Non-trivial = >= 3 elements, or a reversed pair "
+        "(all rows up to 40 per function, else 40 spread rows). Overrides include 0; a quarter of the functions are near-copies of an earlier one. "
+        "Non-trivial = >= 3 elements, or a reversed pair "
         "declaration, or a zero-filled pair/function, or an override that beats the built-in table; distinct = "
         "canonical JSON.")
 ASSUMPTIONS = [
